@@ -284,6 +284,9 @@ PROPS = {
 }
 
 
+ARCH_EXTRA = {'C04': [('arm64', ['src.compareRanks'])]}
+
+
 def load_known(path):
     known = {}
     fixed = []
@@ -325,6 +328,23 @@ def check_property(prop, tier, seed):
         return 1
     funcs = ses.claimed_functions(prop)
     results = []
+    extra_gens = []
+    for arch, fnames in ARCH_EXTRA.get(prop, []):
+        # build-tag variants: the same contract checked against the file compiled for other architectures
+        try:
+            ses2 = Session(pkgs, goarch=arch)
+            for fname in fnames:
+                full = [x for x in ses2.prog.funcs if short_fn(x) == fname]
+                for fx in full:
+                    g2 = ses2.generate(fx)
+                    g2['func'] = fx + '@' + arch
+                    g2['ses'] = ses2
+                    if not g2.get('error'):
+                        for ob in g2['obs']:
+                            ob.name = ob.name.replace(short_fn(fx) + '/', short_fn(fx) + '@' + arch + '/')
+                    extra_gens.append(g2)
+        except Exception as ex:
+            results.append({'func': 'arch:' + arch, 'error': 'loading GOARCH=%s failed: %s' % (arch, ex), 'obligations': []})
     for k in ses.unbound:
         sp = ses.specs.funcs[k]
         if prop in sp.props:
@@ -333,6 +353,7 @@ def check_property(prop, tier, seed):
     gens = []
     for f in funcs:
         gens.append(ses.generate(f))
+    gens += extra_gens
     allobs = []
     for g in gens:
         if g.get('error'):
@@ -402,7 +423,7 @@ def check_property(prop, tier, seed):
         if rets and all(x == 'unsat' for x in rets):
             vac_problems.append('%s: no return reachable' % short_fn(g['func']))
         dead = sum(1 for x in rets if x == 'unsat')
-        sp_ = ses.resolver(g['func']) if not g['func'].startswith('lemma.') else None
+        sp_ = ses.resolver(g['func'].split('@')[0]) if not g['func'].startswith('lemma.') else None
         allowed = int((sp_.opts.get('deadreturns') or ['0'])[0]) if sp_ else 0
         if dead > allowed:
             vac_problems.append('%s: %d return(s) proved unreachable (expected %d): the context may be contradictory' % (short_fn(g['func']), dead, allowed))
